@@ -10,6 +10,7 @@ mod fam_access;
 mod fam_admin;
 mod fam_dyn;
 mod fam_fee;
+mod fam_init;
 mod fam_pmod;
 mod fam_admission;
 mod fam_liq;
@@ -92,6 +93,7 @@ pub fn families() -> Vec<Box<dyn Family>> {
     fam_fee::register(&mut v);
     fam_sdk::register(&mut v);
     fam_admin::register(&mut v);
+    fam_init::register(&mut v);
     v
 }
 
